@@ -142,12 +142,16 @@ def extraction(full=False):
 # ---------------------------------------------------------------------------------------
 # Lean
 # ---------------------------------------------------------------------------------------
-def lake_build(targets, timeout=3000):
-    """lake build of the given targets under the lock; returns (ok, output)."""
-    with Lock("lake"):
+def lake_build(targets, timeout=3000, locked=False):
+    """lake build of the given targets under the lock (unless the caller already holds it); returns (ok, output, seconds)."""
+    def go():
         t0 = time.time()
         r = subprocess.run(["lake", "build"] + targets, cwd=LEAN, stdout=subprocess.PIPE, stderr=subprocess.STDOUT, text=True, timeout=timeout)
         return r.returncode == 0, r.stdout, time.time() - t0
+    if locked:
+        return go()
+    with Lock("lake"):
+        return go()
 
 def rdsmodel():
     return os.path.join(LEAN, ".lake", "build", "bin", "rdsmodel")
